@@ -710,7 +710,9 @@ class World:
         mod = proc.mod
         ld = real_pickle.loads
         if self.wkind == 'worker':
-            if not getattr(mod, 'INITED', False):
+            if not hasattr(mod, 'INITED') or not hasattr(mod, 'DBS'):
+                raise AttributeError('worker globals renamed: audit unavailable')
+            if not mod.INITED:
                 return diffs
             for name, pdb in sorted(w._dbs.items()):
                 actual = mod.DBS.get(name)
@@ -729,6 +731,8 @@ class World:
             if w._system_config is not None and w._system_config != mod.INSTANCE_CONFIG:
                 diffs.append(('instance_config', w._system_config, mod.INSTANCE_CONFIG))
         else:
+            if not hasattr(mod, 'clients'):
+                raise AttributeError('worker globals renamed: audit unavailable')
             pending_inval = set(w._invalidated_clients)
             for cid, ts in sorted(w._cache.items()):
                 if cid in pending_inval:
